@@ -78,6 +78,12 @@ Proof.
   - intros x Hl Hq Hx. rewrite (HN x Hl Hq Hx). auto.
 Qed.
 
+(* startRunnable has stored the runnable's initial state (it does so before calling Run) *)
+Definition stored (p : rn_pc) : Prop :=
+  match p with RnStored | RnRunning | RnSending _ | RnDone => True | _ => False end.
+Lemma ran_stored p : ran p -> stored p.
+Proof. destruct p; cbn; auto. Qed.
+
 Definition allP (s : state) : Prop :=
   forall i, P (mon_at s i) (pend s i) (smap_at s i) (cur_at s i).
 
@@ -87,7 +93,7 @@ Record InvMon (c : config) (s : state) : Prop := {
   im_P : allP s;
   im_done : forall i, mon_at s i = MoDone -> ctx_done s = true;
   im_absent : forall i, i < nrun c -> mon_at s i = MoAbsent -> stateable (spec c i) = false;
-  im_entry : forall i, i < nrun c -> stateable (spec c i) = true -> ran (rn_at s i) -> smap_at s i <> None;
+  im_entry : forall i, i < nrun c -> stateable (spec c i) = true -> stored (rn_at s i) -> smap_at s i <> None;
 }.
 
 Lemma get_upd_eq {A} (d : A) l i x j :
@@ -147,7 +153,7 @@ Qed.
 Lemma InvMon_frame c s s' :
   InvMon c s -> mon s' = mon s -> mq s' = mq s -> smap s' = smap s -> cur s' = cur s ->
   (ctx_done s = true -> ctx_done s' = true) ->
-  (forall i, i < nrun c -> stateable (spec c i) = true -> ran (rn_at s' i) -> ran (rn_at s i)) ->
+  (forall i, i < nrun c -> stateable (spec c i) = true -> stored (rn_at s' i) -> stored (rn_at s i)) ->
   InvMon c s'.
 Proof.
   intros [L Hp Hd Ha He] Em Eq Es Ec Hc Hr. constructor.
@@ -169,8 +175,8 @@ Lemma InvMon_point c s s' i0 :
   (ctx_done s = true -> ctx_done s' = true) ->
   (mon_at s' i0 = MoDone -> ctx_done s' = true) ->
   (mon_at s' i0 = MoAbsent -> mon_at s i0 = MoAbsent) ->
-  (forall i, i < nrun c -> stateable (spec c i) = true -> ran (rn_at s' i) ->
-             ran (rn_at s i) \/ (i = i0 /\ smap_at s' i0 <> None)) ->
+  (forall i, i < nrun c -> stateable (spec c i) = true -> stored (rn_at s' i) ->
+             stored (rn_at s i) \/ (i = i0 /\ smap_at s' i0 <> None)) ->
   (smap_at s i0 <> None -> smap_at s' i0 <> None) ->
   InvMon c s'.
 Proof.
@@ -187,13 +193,13 @@ Proof.
 Qed.
 
 Lemma ran_upd_keep (l : list rn_pc) i p j :
-  ran p -> ran (get RnDone (upd l i p) j) -> get RnDone l i <> RnNot -> ran (get RnDone l j) \/ i = j.
+  stored p -> stored (get RnDone (upd l i p) j) -> get RnDone l i <> RnNot -> stored (get RnDone l j) \/ i = j.
 Proof.
   intros Hp H _. destruct (Nat.eq_dec i j) as [->|N]; [now right|left]. now rewrite get_upd_other in H.
 Qed.
 
 Lemma ran_mono_upd (s : state) i p :
-  (ran p -> ran (rn_at s i)) -> forall j, ran (get RnDone (upd (rn s) i p) j) -> ran (rn_at s j).
+  (stored p -> stored (rn_at s i)) -> forall j, stored (get RnDone (upd (rn s) i p) j) -> stored (rn_at s j).
 Proof.
   intros Hp j H. unfold rn_at. destruct (Nat.eq_dec i j) as [->|N].
   - destruct (Nat.lt_ge_cases j (length (rn s))) as [L|L].
@@ -213,7 +219,7 @@ Lemma L_store c s s' i :
   InvMon c s -> i < nrun c ->
   mon s' = mon s -> mq s' = mq s -> cur s' = cur s -> smap s' = upd (smap s) i (Some (cur_at s i)) ->
   (ctx_done s = true -> ctx_done s' = true) ->
-  (forall j, ran (rn_at s' j) -> ran (rn_at s j) \/ j = i) ->
+  (forall j, stored (rn_at s' j) -> stored (rn_at s j) \/ j = i) ->
   InvMon c s'.
 Proof.
   intros I Li Em Eq Ec Es Hc Hr. pose proof (im_len _ _ I) as (L1 & L2 & L3 & L4).
@@ -415,13 +421,14 @@ Proof.
   all: repeat match goal with E : _ && _ = true |- _ => apply andb_true_iff in E as [? ?] end.
   all: repeat match goal with E : (_ =? _) = true |- _ => apply Nat.eqb_eq in E; subst end.
   all: repeat match goal with E : (_ <? _) = true |- _ => apply Nat.ltb_lt in E end.
+  all: repeat match goal with E : negb _ = true |- _ => apply negb_true_iff in E end.
   (* stores by startRunnable / Shutdown / the reload pass *)
   all: try (match goal with |- InvMon _ (with_hist (set_smap _ (upd _ ?ii _) _) _) => eapply (L_store c s _ ii I) end;
             [first [assumption|apply stateable_lt; assumption]|reflexivity|reflexivity|reflexivity|reflexivity
             |unfold ctx_done; simp_st; exact (fun H => H)
             |unfold rn_at; simp_st;
              first [intros jj Hj; left; exact Hj
-                   |match goal with |- forall j, ran (get RnDone (upd _ ?ii _) j) -> _ =>
+                   |match goal with |- forall j, stored (get RnDone (upd _ ?ii _) j) -> _ =>
                       intros jj Hj; destruct (Nat.eq_dec ii jj) as [Ej|Nj]; [right; now symmetry|left; now rewrite get_upd_other in Hj] end]]; fail).
   (* RunCall of a runnable that is not Stateable *)
   all: try (eapply InvMon_frame; [exact I|reflexivity|reflexivity|reflexivity|reflexivity
@@ -434,6 +441,20 @@ Proof.
                 eapply (L_emit c s _ i x I); [assumption|reflexivity|reflexivity|reflexivity|reflexivity|reflexivity|];
                 rewrite H;
                 first [left; split; [exact Logic.I|reflexivity] | right; split; [intros X; exact X|reflexivity]] end end; fail).
+  (* startRunnable's store and broadcast, before Run is entered *)
+  all: try (match goal with |- InvMon _ (set_smap (set_rn _ ?ii RnStored) _ _) => eapply (L_store c s _ ii I) end;
+            [assumption|reflexivity|reflexivity|reflexivity|reflexivity
+            |unfold ctx_done; simp_st; exact (fun H => H)
+            |unfold rn_at; simp_st;
+             match goal with |- forall j, stored (get RnDone (upd _ ?ii _) j) -> _ =>
+               intros jj Hj; destruct (Nat.eq_dec ii jj) as [Ej|Nj]; [right; now symmetry|left; now rewrite get_upd_other in Hj] end]; fail).
+  (* RunCall after that store *)
+  all: try (eapply InvMon_frame; [exact I|reflexivity|reflexivity|reflexivity|reflexivity
+            |unfold ctx_done; simp_st; exact (fun H => H)
+            |intros ii Lii Hst; unfold rn_at; simp_st; intros Hr;
+             destruct (Nat.eq_dec i ii) as [Ei|Ni];
+             [subst; match goal with E : rn_at _ _ = RnStored |- _ => unfold rn_at in E; rewrite E; exact Logic.I end
+             |now rewrite get_upd_other in Hr]]; fail).
   (* ---- Shutdown stores the recorded final states again: wg is zero, so every monitor is gone ---- *)
   - match goal with E : wg_zero _ = true |- _ => rename E into W end.
     unfold wg_zero in W. apply andb_true_iff in W as [_ T].
@@ -596,7 +617,7 @@ Proof.
   pose proof (InvMon_reachable _ _ Hre) as I. pose proof (im_P _ _ I i) as HP.
   pose proof (quiescent_monsub _ _ _ Q Li Hok) as Hns.
   pose proof (quiescent_monrecv _ _ _ Q Li) as Hq.
-  pose proof (im_entry _ _ I i Li Hst Hran) as Hent.
+  pose proof (im_entry _ _ I i Li Hst (ran_stored _ Hran)) as Hent.
   destruct (smap_at s i) as [x|] eqn:Ex; [|congruence]. f_equal.
   destruct (mon_at s i) eqn:Em; try contradiction; try congruence.
   - (* absent: not Stateable *) pose proof (im_absent _ _ I i Li Em). congruence.
